@@ -381,6 +381,7 @@ func suiteC07(r *Run) {
 			cdesc := map[string]interface{}{"side": "client", "kind": bd.kind, "ending": endName(endErr), "body_hex": trunc(hex.EncodeToString(bd.b), 400), "body_len": len(bd.b)}
 
 			// ---- client side
+			r.Begin("http-client/framing/panic", "the stream decoder never panics", cdesc)
 			o := driveClientBody(bd.b, endErr)
 			r.Op(sprintf("C07 client %s %s %s", hexOrDash(bd.b), endName(endErr), ext), strings.Join(o.results, " "))
 			r.Eval(sprintf("client %s %x", endName(endErr), bd.b), nontrivial)
@@ -426,6 +427,7 @@ func suiteC07(r *Run) {
 				if bd.kind == "random" && cs == false && rng.Chance(50) {
 					continue
 				}
+				r.Begin("http-server/framing/panic", "the stream decoder never panics", map[string]interface{}{"side": "server", "client_streams": cs, "kind": bd.kind, "ending": endName(endErr), "body_hex": trunc(hex.EncodeToString(bd.b), 400), "body_len": len(bd.b)})
 				res, pan, _, allocMB := driveServerBody(bd.b, endErr, cs)
 				csn := map[bool]string{true: "1", false: "0"}[cs]
 				r.Op(sprintf("C07 server %s %s %s %s", hexOrDash(bd.b), endName(endErr), csn, ext), strings.Join(res, " "))
